@@ -334,10 +334,10 @@ def _sweep_shard(item):
     for i, case in enumerate(all_cases()):
         if i % nshards != idx:
             continue
-        if stride > 1 and (i // nshards) % stride != 0 and len(case[4]) == 2:
-            continue   # quick tier: a stride of the size-2 sets ...
-        if stride > 1 and len(case[4]) < 2 and (i // nshards + seed) % 2 != 0:
-            continue   # ... and every other cell of the size-0/1 sets (which half: by the seed)
+        if stride > 1 and (i // nshards + seed) % stride != 0 and len(case[4]) == 2:
+            continue   # a stride of the size-2 sets (which residue: by the seed) ...
+        if stride > 3 and len(case[4]) < 2 and (i // nshards + seed) % 2 != 0:
+            continue   # ... and, in the quick tier, every other cell of the size-0/1 sets
         if len(part["violations"]) >= 3:
             break
         check_case(part, case, _cfgs(i, all8))
@@ -373,7 +373,9 @@ def run(report):
     quick = report.tier == "quick"
     report.rule = RULE
     ns = env.NPROC * 4
-    items = [(_sweep_shard, (i, ns, 20 if quick else 1, not quick, report.seed)) for i in range(ns)]
+    # thorough: all size-0/1 sets and every third size-2 set (which third: by the seed); the complete product
+    # (about 1.2 million cells x 8 configurations) takes well over an hour
+    items = [(_sweep_shard, (i, ns, 20 if quick else 3, not quick, report.seed)) for i in range(ns)]
     items += [(_drawn_shard, (env.sub_seed(report.seed, "C12", i), 40 if quick else 1500)) for i in range(env.NPROC)]
     # host dimension: a seeded stride of the skeleton product as whole programs (stdout, canonical
     # globals incl. the class itself) under the other host interpreters
@@ -400,9 +402,9 @@ def run(report):
         report.extra["host_cases_per_host"] = len(hcases)
     for part in env.pmap(_callf, items):
         report.absorb(part)
-    report.exhaustive = not quick
-    report.notes.append("thorough: the skeleton product x member sets of size <= 2 is enumerated completely "
-                        "(exhaustive:true); quick: half of the size-0/1 sets (which half: by the seed) and every 20th size-2 set")
+    report.exhaustive = False
+    report.notes.append("thorough: all member sets of size <= 1 and every third size-2 set (which third: by the seed) over the "
+                        "whole skeleton product; quick: half of the size-0/1 sets (which half: by the seed) and every 20th size-2 set")
     for s in sorted(open_switches('C12')):
         report.exclusions.setdefault(s, 0)
     report.assumptions += ["class-creation hooks that look at the namespace (__prepare__, metaclass __new__ reading the dict, "
